@@ -23,6 +23,9 @@ func Case(stream, profile string, r *prng.R, id string, i int) *sexp.S {
 
 func init() {
 	Register("run", func(profile string, r *prng.R, id string, i int) *sexp.S {
+		if profile == "numeric" {
+			return NumericCase(r, id)
+		}
 		p := Profiles[profile]
 		if p == nil {
 			return nil
